@@ -72,15 +72,16 @@ type BaseStore struct {
 	messageMarshaler iface.MessageMarshaler
 	directChannel    iface.DirectChannel
 
-	muCache   sync.RWMutex
-	muIndex   sync.RWMutex
-	muJoining sync.Mutex
-	sortFn    ipfslog.SortFn
-	logger    *zap.Logger
-	tracer    trace.Tracer
-	ctx       context.Context
-	cancel    context.CancelFunc
-	closeFunc func()
+	muCache      sync.RWMutex
+	muIndex      sync.RWMutex
+	muJoining    sync.Mutex
+	muLocalHeads sync.Mutex
+	sortFn       ipfslog.SortFn
+	logger       *zap.Logger
+	tracer       trace.Tracer
+	ctx          context.Context
+	cancel       context.CancelFunc
+	closeFunc    func()
 
 	// Deprecated: if possible don't use this, use EventBus() directly instead
 	events.EventEmitter
@@ -875,22 +876,12 @@ func (b *BaseStore) AddOperation(ctx context.Context, op operation.Operation, on
 
 	oplog := b.OpLog()
 
-	e, err := oplog.Append(ctx, data, &ipfslog.AppendOptions{PointerCount: b.referenceCount})
+	e, err := b.appendAndPersistHead(ctx, oplog, data)
 	if err != nil {
-		return nil, fmt.Errorf("unable to append data on log: %w", err)
+		return nil, err
 	}
 
 	b.recalculateReplicationStatus(e.GetClock().GetTime())
-
-	marshaledEntry, err := json.Marshal([]ipfslog.Entry{e})
-	if err != nil {
-		return nil, fmt.Errorf("unable to marshal entry: %w", err)
-	}
-
-	err = b.Cache().Put(ctx, datastore.NewKey("_localHeads"), marshaledEntry)
-	if err != nil {
-		return nil, fmt.Errorf("unable to add data to cache: %w", err)
-	}
 
 	if err := b.updateIndex(ctx); err != nil {
 		return nil, fmt.Errorf("unable to update index: %w", err)
@@ -902,6 +893,31 @@ func (b *BaseStore) AddOperation(ctx context.Context, op operation.Operation, on
 
 	if onProgressCallback != nil {
 		onProgressCallback <- e
+	}
+
+	return e, nil
+}
+
+// appendAndPersistHead appends data to the log and persists the resulting head. Both steps
+// happen under one lock: with concurrent writers, the one that appended first could
+// otherwise persist its (older) head last and the newer entry would be lost by a restart
+func (b *BaseStore) appendAndPersistHead(ctx context.Context, oplog ipfslog.Log, data []byte) (ipfslog.Entry, error) {
+	b.muLocalHeads.Lock()
+	defer b.muLocalHeads.Unlock()
+
+	e, err := oplog.Append(ctx, data, &ipfslog.AppendOptions{PointerCount: b.referenceCount})
+	if err != nil {
+		return nil, fmt.Errorf("unable to append data on log: %w", err)
+	}
+
+	marshaledEntry, err := json.Marshal([]ipfslog.Entry{e})
+	if err != nil {
+		return nil, fmt.Errorf("unable to marshal entry: %w", err)
+	}
+
+	err = b.Cache().Put(ctx, datastore.NewKey("_localHeads"), marshaledEntry)
+	if err != nil {
+		return nil, fmt.Errorf("unable to add data to cache: %w", err)
 	}
 
 	return e, nil
